@@ -223,3 +223,71 @@ def drive(v, prop, seed, runs, tier, relevant=None):
             body = [l for l in open(tr).read().splitlines() if '"St"' in l][:3] + \
                    [l for l in open(tr).read().splitlines() if '"St"' not in l][:5]
             v.samples.append({"trace": os.path.basename(tr), "mode": desc, "records": res.tracelen, "excerpt": body})
+
+
+def replay_lane(prop, path):
+    """Replay of a saved lane artefact: re-validates a recorded trace (word level + thread events) and re-evaluates
+    the API-level oracles from the recorded Call/Ret/Start/End order.  exit 1 iff the violation is still there."""
+    txt = open(path).read()
+    if not txt.lstrip().startswith("{"):
+        print(txt[-3000:])
+        return 1
+    lines = [l for l in txt.splitlines() if l.strip()]
+    body = [l for l in lines if '"Header"' not in l]
+    tmp = os.path.join(rundir(prop), "replay_input.ndjson")
+    open(tmp, "w").write("\n".join(body) + "\n")
+    bad = 0
+    W = 1
+    for l in body[:3]:
+        try:
+            j = json.loads(l)
+            if j.get("e") == "Reset":
+                W = j.get("w", 1)
+        except Exception:
+            pass
+    cfg = os.path.join(rundir(prop), "LaneWordTrace_replay.cfg")
+    open(cfg, "w").write(open(os.path.join(SPEC, "cfg", "LaneWordTrace.cfg")).read().replace("W = 1", "W = %d" % W))
+    nt = count_threads(tmp) + 1
+    for spec, c in (("LaneWordTrace.tla", cfg), ("ThreadEventTrace.tla", "ThreadEventTrace.cfg")):
+        r = validate_trace(spec, c, tmp, nthreads=nt, metaname="%s_replay" % prop)
+        print("%s: %s (matched %s of %s records)" % (spec, "accepted" if r.accepted else "REJECTED", r.maxl, r.tracelen))
+        if not r.accepted:
+            k = r.maxl or 1
+            hl = open(r.trace_with_header).read().splitlines()
+            print("  first unexplained record: %s" % (hl[k - 1][:400] if k - 1 < len(hl) else "?"))
+            bad = 1
+    # API-level oracles per execution (between Reset markers)
+    items, serial = {}, True
+    def judge():
+        nonlocal bad
+        its = [x for x in items.values() if "Start" in x and "End" in x]
+        for x in items.values():
+            if x.get("starts", 0) != 1:
+                print("  oracle: item %s ran %d times" % (x["i"], x.get("starts", 0))); bad = 1
+        for a in its:
+            for b in its:
+                if a is b:
+                    continue
+                eb = serial or a["k"] in ("ba", "bs", "bw") or b["k"] in ("ba", "bs", "bw")
+                if not eb:
+                    continue
+                if a["i"] < b["i"] and a["Start"] < b["End"] and b["Start"] < a["End"]:
+                    print("  oracle: items %s and %s overlapped" % (a["i"], b["i"])); bad = 1
+                if "Ret" in a and "Call" in b and a["Ret"] < b["Call"] and not a["End"] < b["Start"]:
+                    print("  oracle: submission order not respected: %s then %s" % (a["i"], b["i"])); bad = 1
+    for l in body:
+        try:
+            j = json.loads(l)
+        except Exception:
+            continue
+        e = j.get("e")
+        if e == "Reset":
+            judge(); items = {}; serial = j.get("w", 1) == 1
+        elif e in ("Call", "Ret", "Start", "End") and j.get("i", -1) >= 0:
+            it = items.setdefault(j["i"], {"i": j["i"], "k": j.get("k")})
+            it[e] = j["n"]
+            if e == "Start":
+                it["starts"] = it.get("starts", 0) + 1
+    judge()
+    print("replay verdict: %s" % ("violation reproduced" if bad else "no violation in this artefact"))
+    return 1 if bad else 0
